@@ -232,6 +232,7 @@ NAMING = {
     "device-pascal": ('version: "3"\nstruct M { a @0: u8, }\nimpl can for M { id: 4, device: "MotorController", }\n', [("MotorController", "M", {"a": 7}, "07")]),
     "two-devices": ('version: "3"\nstruct M { a @0: u8, }\nstruct N { c @0: u16, }\nimpl can for M { id: 5, device: "ecu", }\nimpl can for N { id: 6, device: "bms", }\n', [("ecu", "M", {"a": 7}, "07"), ("bms", "N", {"c": 258}, "0201")]),
     "two-devices-interleaved": ('version: "3"\nstruct M { a @0: u8, }\nstruct N { c @0: u16, }\nstruct P { d @0: i8, }\nstruct Q { e @0: u8, }\nimpl can for M { id: 5, device: "ecu", }\nimpl can for N { id: 6, device: "bms", }\nimpl can for P { id: 7, device: "ecu", }\nimpl can for Q { id: 8, device: "bms", }\n', [("ecu", "M", {"a": 7}, "07"), ("bms", "N", {"c": 258}, "0201"), ("ecu", "P", {"d": -2}, "fe"), ("bms", "Q", {"e": 9}, "09")]),
+    "messages-differ-in-acronym-case": ('version: "3"\nstruct BMSStatus { a @0: u8, }\nstruct BmsStatus { b @0: u16, }\nstruct CellID { c @0: u8, }\nstruct CellId { d @0: i8, }\nimpl can for BMSStatus { id: 40, device: "ecu", }\nimpl can for BmsStatus { id: 41, device: "ecu", }\nimpl can for CellID { id: 42, device: "ecu", }\nimpl can for CellId { id: 43, device: "ecu", }\n', [("ecu", "BMSStatus", {"a": 7}, "07"), ("ecu", "BmsStatus", {"b": 258}, "0201"), ("ecu", "CellID", {"c": 9}, "09"), ("ecu", "CellId", {"d": -2}, "fe")]),
     "message-names": ('version: "3"\nstruct ABCMsg { a @0: u8, }\nstruct my_msg { b @0: u8, }\nstruct Msg2B { c @0: u8, }\nimpl can for ABCMsg { id: 7, device: "ecu", }\nimpl can for my_msg { id: 8, device: "ecu", }\nimpl can for Msg2B { id: 9, device: "ecu", }\n', [("ecu", "ABCMsg", {"a": 1}, "01"), ("ecu", "my_msg", {"b": 2}, "02"), ("ecu", "Msg2B", {"c": 3}, "03")]),
     "renamed-binding": ('version: "3"\nstruct M { a @0: u8, }\nimpl can for M as Status { id: 10, device: "ecu", }\n', [("ecu", "Status", {"a": 9}, "09")]),
     "enums-sharing-an-enumerator": ('version: "3"\nenum A { Off = 0, On = 1, }\nenum B { Off = 0, Fast = 2, }\nstruct M { a @0: A, b @1: B, }\nimpl can for M { id: 11, device: "ecu", }\n', [("ecu", "M", {"a": 1, "b": 2}, "05")]),
